@@ -447,15 +447,19 @@ pub struct Deviations {
     /// `<16383>.<fraction rounding up to 1>fil[l[l]]` gives 2^30 sp without an error (TeX: the
     /// test `abs(cur_val)>=2^30` at attach_sign applies to fil units like to all others).
     pub fil_carry_unchecked: bool,
+    /// After `fil`, each further `l` must follow immediately: a blank ends the unit (TeX §454 scans every further l
+    /// with scan_keyword("l"), which skips blanks: `fil l` is `fill`).
+    pub fil_l_no_blank_skip: bool,
 }
 
-pub const N_DEVIATIONS: u32 = 5;
-pub const DEVIATION_NAMES: [&str; 5] = [
+pub const N_DEVIATIONS: u32 = 6;
+pub const DEVIATION_NAMES: [&str; 6] = [
     "mult_accepts_min",
     "glue_add_keeps_zero_order",
     "internal_dimen_unchecked",
     "internal_unit_clamp_sign",
     "fil_carry_unchecked",
+    "fil_l_no_blank_skip",
 ];
 
 impl Deviations {
@@ -466,6 +470,7 @@ impl Deviations {
             internal_dimen_unchecked: m & 4 != 0,
             internal_unit_clamp_sign: m & 8 != 0,
             fil_carry_unchecked: m & 16 != 0,
+            fil_l_no_blank_skip: m & 32 != 0,
         }
     }
 }
@@ -565,7 +570,16 @@ impl Machine {
         loop {
             self.get_next()?;
             if self.cur_tok == Tok::Cs("the".into()) {
-                self.expand_the()?;
+                // §366 expand: "cv_backup:=cur_val; cvl_backup:=cur_val_level; radix_backup:=radix; co_backup:=cur_order"
+                // ... restored afterwards. cur_val is a local of the scanning routines here; radix and cur_order are
+                // fields that the nested scan_int / scan_dimen of \the<register> would otherwise clobber
+                // (`"7\the\count2` with \count2=0 is "70 = 112, not 7*10+0).
+                let radix_backup = self.radix;
+                let co_backup = self.cur_order;
+                let r = self.expand_the();
+                self.radix = radix_backup;
+                self.cur_order = co_backup;
+                r?;
                 continue;
             }
             return Ok(());
@@ -956,7 +970,26 @@ impl Machine {
         // §454 Scan for fil units; goto attach_fraction if found
         if inf && self.scan_keyword("fil")? {
             self.cur_order = Order::Fil;
-            while self.scan_keyword("l")? {
+            loop {
+                // rule reached: a blank follows the fil[l[l]] read so far
+                let blank_next = self.input.last() == Some(&Tok::Space);
+                if blank_next {
+                    self.fired |= 32;
+                }
+                let more = if self.dev.fil_l_no_blank_skip {
+                    // deviation: the next (expanded) token itself must be an l
+                    self.get_x_token()?;
+                    let is_l = matches!(&self.cur_tok, Tok::Letter(c) | Tok::Other(c) if *c == b'l' || *c == b'L');
+                    if !is_l {
+                        self.back_input();
+                    }
+                    is_l
+                } else {
+                    self.scan_keyword("l")?
+                };
+                if !more {
+                    break;
+                }
                 if self.cur_order == Order::Filll {
                     self.error(ErrKind::IllegalFilll);
                 } else {
@@ -1356,6 +1389,9 @@ pub struct StatementResult {
     pub ambiguous: bool,
     pub fired: u32,
     pub seen: Seen,
+    /// Characters left over after the statement (deviation runs only: a deviation that ends a unit early leaves the
+    /// rest of it behind as text, which the engine typesets before the read-back).
+    pub leftover: String,
 }
 
 /// Lex `text` (which must end with `\relax`), execute the one register command it contains on
@@ -1374,6 +1410,7 @@ pub fn run_statement(text: &str, regs: &Regs, dev: Deviations) -> Result<Stateme
         ambiguous: m.arith.ambiguous,
         fired: m.fired,
         seen: m.seen,
+        leftover: String::new(),
     })
 }
 
@@ -1449,6 +1486,9 @@ mod tests {
         assert_eq!(scan_int_text("\"7FFFFFFF").unwrap(), (INFINITY, vec![]));
         assert_eq!(scan_int_text("'17777777777").unwrap(), (INFINITY, vec![]));
         assert_eq!(scan_int_text("- -`\\a").unwrap(), (97, vec![]));
+        // expansion inside a constant keeps the radix (§366 radix_backup)
+        assert_eq!(scan_int_text("\"7\\the\\count2 ").unwrap(), (112, vec![]));
+        assert_eq!(scan_int_text("'7\\the\\count2 ").unwrap(), (56, vec![]));
     }
 
     #[test]
